@@ -1,0 +1,26 @@
+//go:build verif
+
+package transmit
+
+import "sync/atomic"
+
+// VerifHooks are installed by conformance-checking harnesses (build tag
+// "verif" only). Emit is called at the transmission's linearization points
+// (under batch.mutex where the state it reports is shared, otherwise from the
+// goroutine that owns the state) with the transmission, the event name and
+// alternating key/value pairs. The receiver orders the events it is handed;
+// the call sites hold the lock that protects what they report.
+type VerifHooks struct {
+	Emit func(d *DirectTransmission, event string, kv ...any)
+}
+
+var verifHooks atomic.Pointer[VerifHooks]
+
+// SetVerifHooks installs (or, with nil, removes) the hooks.
+func SetVerifHooks(h *VerifHooks) { verifHooks.Store(h) }
+
+func verifEmit(d *DirectTransmission, event string, kv ...any) {
+	if h := verifHooks.Load(); h != nil && h.Emit != nil {
+		h.Emit(d, event, kv...)
+	}
+}
